@@ -134,6 +134,12 @@ func main() {
 		return
 	}
 
+	if *dump == "atomicity" {
+		lint.DumpAtomicity(prog, "pkg/")
+
+		return
+	}
+
 	if *dump == "census" {
 		lint.DumpCensus(prog)
 
